@@ -244,6 +244,60 @@ func c13Workload[T any](rep *Report, codec Codec[T], k int, rng *rand.Rand, fail
 			rep.addViolation("property", key+":enumeration", fmt.Sprintf("after link %d failed: link %d enumerated=%v", victim, i, ok), desc)
 		}
 	}
+	// ---- re-linking: a NEW peer connects to the hub after that failure. Its identifier must be fresh (never
+	// announced before, in particular not that of a live link), and every surviving link keeps its identity.
+	ns := &spoke[T]{peer: newSide[T]("Pnew"), hubErr: make(chan error, 1)}
+	for j := range ns.qs {
+		ns.qs[j] = NewQueue()
+	}
+	ns.hubCtx, ns.hubStop = context.WithCancel(context.Background())
+	ns.peer.Ctx, ns.peer.Cancel = context.WithCancel(context.Background())
+	linkOne(hub, ns.hubCtx, ns.qs[0], ns.qs[1], ns.qs[2], ns.qs[3], ns.hubErr)
+	linkOne(ns.peer, ns.peer.Ctx, ns.qs[2], ns.qs[3], ns.qs[0], ns.qs[1], ns.peer.LinkErr)
+	spokes = append(spokes, ns) // torn down with the others
+	connects := func() []string {
+		var ids []string
+		for _, h := range hub.Hooks() {
+			if h.Kind == "reg.connect" {
+				ids = append(ids, h.RemoteID)
+			}
+		}
+		return ids
+	}
+	waitFor(func() bool { return len(connects()) == k+1 && len(ns.peer.Remotes()) == 1 })
+	ids := connects()
+	if len(ids) != k+1 {
+		rep.addViolation("property", key+":relink", fmt.Sprintf("a new link after the failure produced %d connect notifications in total (want %d)", len(ids), k+1), desc)
+		return
+	}
+	newID := ids[len(ids)-1]
+	for _, old := range ids[:len(ids)-1] {
+		if old == newID {
+			rep.addViolation("property", key+":relink-id-reused", fmt.Sprintf("the link established after link %d failed was announced under the identifier %q, which an earlier link of this registry already carries", victim, newID), desc)
+		}
+	}
+	en = hub.Remotes()
+	if len(en) != k {
+		rep.addViolation("property", key+":relink-enumeration", fmt.Sprintf("%d live links (one failed, one new), %d enumerated", k, len(en)), desc)
+	}
+	for i, s := range append(append([]*spoke[T]{}, spokes[:k]...), ns) {
+		if i == victim {
+			continue
+		}
+		name, id := fmt.Sprintf("P%d", i), s.hubID
+		if s == ns {
+			name, id = "Pnew", newID
+		}
+		rem, ok := en[id]
+		if !ok {
+			rep.addViolation("property", key+":relink-enumeration", fmt.Sprintf("after a new link connected, live link %s is no longer enumerated under its identifier", name), desc)
+			continue
+		}
+		r := withWatchdog(func() (any, error) { return rem.WhoAmI(context.Background()) })
+		if !r.ok || r.err != nil || strings.SplitN(r.val.(string), "|", 2)[0] != name {
+			rep.addViolation("property", key+":relink-routing", fmt.Sprintf("after a new link connected, the remote enumerated under %s's identifier reaches %+v", name, r), desc)
+		}
+	}
 }
 
 func runC13(rep *Report, tier string, seed int64) {
